@@ -229,3 +229,6 @@ func ReplayMain(t *testing.T, table map[string]func()) {
 		t.Fatal(err)
 	}
 }
+
+// Thorough reports whether the check runs in the thorough tier (larger bounds).
+func Thorough() bool { return os.Getenv("VERIF_TIER") == "thorough" }
